@@ -234,10 +234,12 @@ func (s *sim) run() *core.Violation {
 		return v
 	}
 
-	maxOps, stop := 40, t.Range(3, 40)
+	maxOps := t.Bound(40, 100)
 	if s.prop == "C09" {
-		maxOps, stop = 14, t.Range(3, 14)
+		maxOps = t.Bound(14, 40)
 	}
+
+	stop := t.Range(3, maxOps)
 
 	for i := 0; i < maxOps && t.More(stop); i++ {
 		desc, v, skip := s.step()
